@@ -32,6 +32,26 @@ def _save_then_same_then_stop(version, hist):
 CFG["search_suffixes"] = [_stop_restart, _save_then_same_then_stop]
 
 
+def falsy_after_save(rng, version, hist):
+    """After a periodic save, the last thing a node reports before the stop is a value that is falsy in Python
+    (battery level 0, an empty sketch name / version / description, a value "0" or ""): it is a change like
+    any other and has to be in the file after stop()."""
+    if rng.random() < 0.6:
+        return hist
+    node, child = rng.choice([1, 3, 12]), rng.choice([0, 1, 4])
+    last = rng.choice([f"{node};255;3;0;0;0\n", f"{node};255;3;0;11;\n", f"{node};255;3;0;12;\n",
+                       f"{node};{child};1;0;2;0\n", f"{node};{child};1;0;24;\n", f"{node};{child};0;0;3;\n",
+                       f"{node};255;3;0;0;100\n"])
+    script = [("L", f"{node};255;0;0;17;{version}\n"), ("L", f"{node};{child};0;0;3;lamp\n"),
+              ("L", f"{node};255;3;0;0;7\n"), ("L", f"{node};255;3;0;11;sketch\n"), ("L", f"{node};255;3;0;12;1.0\n"),
+              ("L", f"{node};{child};1;0;2;1\n"), ("L", f"{node};{child};1;0;24;text\n"), ("K",), ("L", last),
+              ("X",), ("R",)]
+    return list(hist) + script
+
+
+CFG["post"] = [falsy_after_save]
+
+
 def relevant(hist, obs):
     return any(o[0] == "R" for o in hist)
 
